@@ -3,6 +3,7 @@ plus a small interpreter of the generated method bodies that is used ONLY to dec
 whether an input sequence stays inside the domain the property states (all intermediate
 values non-negative and below 2**32, no division by zero, no negative shift)."""
 import ast
+import fractions
 import itertools
 
 A, B, S, K, PAR = 'self.a.get()', 'self.b.get()', 'self.s', 'self.k', "self.getParameterValue('p')"
@@ -48,6 +49,11 @@ def exprs(tier, seq=True):
                     out.append('(%s %s (%s %s %s))' % (B, op1, x, op2, y))
     return out
 
+
+# constructs outside the transpiler's subset: each must be refused, or - if text is returned - behave like the Python
+PROBES = ['((%s + %s) / 2 > %s)' % (A, B, K), '(%s / 2)' % A, '((%s + 1) / (%s + 1) >= 1)' % (A, B), '(%s ** 2)' % A, '(2 ** %s)' % A,
+          '(%s < %s < %s)' % (A, B, K), '(%s == %s == 1)' % (A, B), '(0 < %s <= %s)' % (A, B), '(1 != %s != %s)' % (A, B),
+          'min(%s, %s)' % (A, B), 'max(%s, %s)' % (A, K), 'abs(%s)' % A, '(+%s)' % A, '(%s in (1, 2))' % A]
 
 CLOCK_TEMPLATES = {
     'T1': ['self.q.prepare({E})'],
@@ -104,6 +110,15 @@ STRUCT = {
         ['match self.s:', '    case 1 if self.a.get() > 0:', '        self.s = 0', '    case 1:', '        self.s = 2', '    case 0:',
          '        self.s = 1', '    case 2:', '        self.s = 1', 'self.q.prepare(self.s)'],
     ],
+    'override': [
+        # default first, override later: the LAST prepare of a port in one clock() wins (as the last non-blocking assignment does)
+        ['self.q.prepare(0)', 'if (self.a.get() == 1):', '    self.q.prepare(1)'],
+        ['self.q.prepare(self.b.get())', 'if (self.s == 1):', '    self.q.prepare(3)', 'self.s = self.a.get() & 1'],
+        ['self.q.prepare(1)', 'self.q.prepare(self.a.get())'],
+        ['self.q.prepare(self.a.get())', 'if (self.b.get() > 1):', '    self.q.prepare(self.s)', '    self.s = self.a.get()',
+         'elif (self.b.get() == 1):', '    self.q.prepare(0)'],
+        ['if (self.a.get() > 0):', '    self.q.prepare(2)', 'if (self.b.get() > 0):', '    self.q.prepare(self.b.get())'],
+    ],
     'ternary': [
         ['self.s = 1 if self.a.get() else 0', 'self.q.prepare(self.s)'],
         ['self.q.prepare(self.a.get() if self.b.get() == 1 else self.k)'],
@@ -135,6 +150,11 @@ def programs(tier):
         for fam, bodies in STRUCT.items():
             for body in bodies:
                 out.append(dict(base, kind='clock', family=fam, body=body))
+        if first:
+            for e in PROBES:
+                for tname in ('T1', 'T5'):
+                    out.append(dict(base, kind='clock', family='probe', body=[l.replace('{E}', e) for l in CLOCK_TEMPLATES[tname]]))
+                out.append(dict(base, kind='propagate', family='probe', body=['self.q.put(%s)' % e.replace(S, B)]))
     return out
 
 
@@ -197,7 +217,12 @@ class Interp:
         self.env = {'a': a, 'b': b, 's': s, 'k': self.p['k'], 'p': self.p['p'], 'c0': 0, 'c1': 1}
         self.loc = {}
         self.q = None
-        self.block(self.tree.body)
+        try:
+            self.block(self.tree.body)
+        except NotImplementedError:
+            if self.p.get('family') == 'probe':
+                raise OutOfDomain('construct not modelled by the domain interpreter')
+            raise
         return self.env['s'], self.q
 
     def block(self, body):
@@ -212,6 +237,8 @@ class Interp:
             return 32
         if isinstance(e, ast.Call):
             f = e.func
+            if isinstance(f, ast.Name):
+                return max([self.sw(x) for x in e.args] + [1])
             if f.attr == 'get':
                 return {'a': self.wa, 'b': self.wb}[f.value.attr]
             return 32
@@ -255,6 +282,8 @@ class Interp:
             call = st.value
             assert isinstance(call, ast.Call) and call.func.attr in ('prepare', 'put')
             v = self.top(call.args[0], self.wq)
+            if isinstance(v, fractions.Fraction):
+                raise OutOfDomain('a float (the result of /) cannot be put on a wire')
             self.q = int(v)
         else:
             raise NotImplementedError(ast.dump(st))
@@ -269,6 +298,8 @@ class Interp:
         raise NotImplementedError(ast.dump(pat))
 
     def assign(self, tgt, v):
+        if isinstance(v, fractions.Fraction):
+            raise NotImplementedError('float in a variable')
         if isinstance(tgt, ast.Attribute):
             self.env[tgt.attr] = int(v)
         else:
@@ -277,12 +308,27 @@ class Interp:
     def fit(self, v, W):
         if isinstance(v, bool):
             return v
+        if v != int(v):
+            # a non-integer quotient: not a width question; non-negative and below 2**32 is all the statement asks
+            if v < 0 or v >= LIMIT:
+                raise OutOfDomain('value')
+            return v
         if v < 0 or v >= (1 << min(W, 32)) or v >= LIMIT:
             raise OutOfDomain('value %d does not fit %d bits' % (v, W))
         return v
 
     def binop(self, op, x, y):
+        if op is ast.Div:
+            if y == 0:
+                raise OutOfDomain('div0')
+            return fractions.Fraction(x) / fractions.Fraction(y)
+        if isinstance(x, fractions.Fraction) or isinstance(y, fractions.Fraction):
+            raise NotImplementedError('float operand')
         x, y = int(x), int(y)
+        if op is ast.Pow:
+            if y > 40:
+                raise OutOfDomain('pow')
+            return x ** y
         if op is ast.Add:
             return x + y
         if op is ast.Sub:
@@ -321,6 +367,10 @@ class Interp:
             return self.fit(self.env[e.attr], W)
         if isinstance(e, ast.Call):
             f = e.func
+            if isinstance(f, ast.Name) and f.id in ('min', 'max', 'abs'):
+                return self.fit({'min': min, 'max': max, 'abs': abs}[f.id](*[self.ev(x, W) for x in e.args]), W)
+            if isinstance(f, ast.Name):
+                raise NotImplementedError(ast.dump(e))
             if f.attr == 'get':
                 return self.env[f.value.attr]
             if f.attr == 'getParameterValue':
@@ -339,12 +389,26 @@ class Interp:
                 return self.fit(~int(self.ev(e.operand, W)), W)
             if isinstance(e.op, ast.Not):
                 return not self.ev(e.operand, self.sw(e.operand))
+            if isinstance(e.op, ast.UAdd):
+                return self.ev(e.operand, W)
             raise NotImplementedError(ast.dump(e))
         if isinstance(e, ast.Compare):
-            w = max(self.sw(e.left), self.sw(e.comparators[0]))
-            l = self.ev(e.left, w)
-            r = self.ev(e.comparators[0], w)
-            return {ast.Eq: l == r, ast.NotEq: l != r, ast.Lt: l < r, ast.LtE: l <= r, ast.Gt: l > r, ast.GtE: l >= r}[type(e.ops[0])]
+            # Python semantics of a (possibly chained) comparison: conjunction of the adjacent pairs
+            res = True
+            left = e.left
+            for op, right in zip(e.ops, e.comparators):
+                if isinstance(op, (ast.In, ast.NotIn)):
+                    l = self.ev(left, self.sw(left))
+                    inside = l in [self.ev(x, 32) for x in right.elts]
+                    ok = inside if isinstance(op, ast.In) else not inside
+                else:
+                    w = max(self.sw(left), self.sw(right))
+                    l = self.ev(left, w)
+                    r = self.ev(right, w)
+                    ok = {ast.Eq: l == r, ast.NotEq: l != r, ast.Lt: l < r, ast.LtE: l <= r, ast.Gt: l > r, ast.GtE: l >= r}[type(op)]
+                res = res and ok
+                left = right
+            return res
         if isinstance(e, ast.BoolOp):
             # Python semantics: the selected operand.  The Verilog form is (x) ? (y) : (x): x is evaluated once as a
             # condition (self-determined width) and once as a value (context width), so it must fit both
